@@ -62,6 +62,8 @@ notes = open(os.path.join(out, "notes.md")).read() if os.path.exists(os.path.joi
 meta_path = os.path.join(out, "meta.json")
 old = json.load(open(meta_path)) if os.path.exists(meta_path) else {}
 hist = old.get("history", [])
+if os.environ.get("SEED_NOTE"):
+    hist = hist + [os.environ["SEED_NOTE"]]
 meta = {
     "id": name, "breaks_property": prop,
     "origin": "written by an independent sub-agent that saw only the property text and a scratch worktree of /repo",
